@@ -128,16 +128,20 @@ namespace cdsv {
         // true if the variant passes the substring filter (alternatives separated by ';') and belongs to this shard
         bool want( std::string const& name ) const
         {
-            bool ok = filter.empty();
+            // tokens separated by ';': "abc" = include names containing abc, "!abc" = exclude names containing abc
+            bool any_include = false, included = false;
             size_t p = 0;
-            while ( !ok && p <= filter.size()) {
+            while ( p <= filter.size()) {
                 size_t q = filter.find( ';', p );
                 if ( q == std::string::npos ) q = filter.size();
                 std::string f = filter.substr( p, q - p );
-                if ( !f.empty() && name.find( f ) != std::string::npos ) ok = true;
+                if ( !f.empty()) {
+                    if ( f[0] == '!' ) { if ( name.find( f.substr( 1 )) != std::string::npos ) return false; }
+                    else { any_include = true; if ( name.find( f ) != std::string::npos ) included = true; }
+                }
                 p = q + 1;
             }
-            if ( !ok ) return false;
+            if ( any_include && !included ) return false;
             return ( want_counter++ % shard_n ) == shard_i;
         }
         uint64_t n( uint64_t quick, uint64_t thor ) const
